@@ -458,6 +458,10 @@ def reaching_def(name, at, calls=False, containers=False):
             if val is None or (isinstance(val, _NO_SUBST) and not (calls and isinstance(val, ast.Call)) and not (containers and not isinstance(val, (ast.Call, ast.Lambda, ast.Yield, ast.Await)))):
                 return None
             used = {x.id for x in ast.walk(val) if isinstance(x, ast.Name)}
+            # names bound inside the expression itself (comprehension / lambda variables) are not the function's variables
+            own_ = {x.id for c_ in ast.walk(val) if isinstance(c_, ast.comprehension) for x in ast.walk(c_.target) if isinstance(x, ast.Name)} | \
+                   {a_.arg for l_ in ast.walk(val) if isinstance(l_, ast.Lambda) for a_ in l_.args.args}
+            used -= own_
             if _binds(lst[i + 1:ia], used | {name}):
                 return None
             # loops entered after the binding must not change what the expression mentions
